@@ -84,3 +84,23 @@ package kgo
 //@   site call add#2 assert [never-negative] arg1.offset >= 0
 //@   site call add#2 assert [for-the-requested-partition] arg1.topic == topic && arg1.partition == partition && arg1.request == loadPart
 //@   site call add#1 assert [negative-is-an-error-not-zero] arg1.err != nil && arg1.partition == partition
+
+// assignPartitions, the loop that turns each assigned Offset into a cursor position or a load request. offset0 is
+// the Offset as assigned (the ranged map value; the loop works on a copy): an after-milli offset is listed
+// unchanged; an exact offset (at >= 0, INCLUDING 0) has its relative part folded in, floored at 0, before it is
+// used as the cursor position (epoch -1), validated by epoch, or - for a partition not yet loaded - listed; a
+// non-exact offset is listed unchanged.
+//@ func (c *consumer) assignPartitions(assignments map[string]map[int32]Offset, how assignHow, tps *topicsPartitions, why string)
+//@   prop C40
+//@   site call addLoad#0 assert [after-milli-listed-unchanged] arg3 == loadTypeList && partitions[partition].afterMilli && arg4.Offset == partitions[partition] && arg4.replica == -1
+//@   site call addLoad#1 assert [exact-with-epoch-validated-at-the-folded-offset] arg3 == loadTypeEpoch && partitions[partition].at >= 0 && arg4.Offset.at == max(0, partitions[partition].at + partitions[partition].relative) && arg4.Offset.relative == 0 && arg4.Offset.epoch == partitions[partition].epoch && arg4.Offset.epoch >= 0
+//@   site call setOffset#1 assert [exact-offset-folded-and-floored] partitions[partition].at >= 0 && arg1.offset == max(0, partitions[partition].at + partitions[partition].relative) && arg1.lastConsumedEpoch == -1
+//@   site call addLoad#2 assert [listed-as-asked] arg3 == loadTypeList && arg4.replica == -1 && ite(partitions[partition].at >= 0, arg4.Offset.at == max(0, partitions[partition].at + partitions[partition].relative) && arg4.Offset.relative == 0, arg4.Offset == partitions[partition] && partitions[partition].at != atCommitted)
+
+// fetchOffsets (group consumers, AtCommitted and the default): the position taken from an OffsetFetch response is
+// the committed offset itself whenever one exists - any offset >= 0, INCLUDING 0 - with no relative part and, with
+// KIP-320, the committed leader epoch; only a negative offset (the coordinator's "nothing committed") falls back to
+// the configured start offset.
+//@ func (g *groupConsumer) fetchOffsets(ctx context.Context, added map[string][]int32) (rerr error)
+//@   prop C40
+//@   site mapupdate Offset#0 assert [committed-offset-used-from-zero-up] mapkey == rPartition.Partition && ite(rPartition.Offset >= 0, val.at == rPartition.Offset && val.relative == 0 && !val.afterMilli && (val.epoch == -1 || val.epoch == rPartition.LeaderEpoch), val == g.cfg.startOffset)
